@@ -13,7 +13,7 @@ Template directives (lines starting with `//@`):
   //@fn <src> <Type>::<name>|::<name> [trait=..] [ty=..] [ret=<id>] [vis=...] [subst=A:B,...] [rename=<new>]
       //@spec            lines spliced between signature and body (requires/ensures/decreases)
       //@top             lines spliced right after the body's opening brace
-      //@loop <n>        lines spliced before the body brace of the n-th loop (while/for/loop, source order)
+      //@loop <n> [opt]  lines spliced before the body brace of the n-th loop (while/for/loop, source order); opt: skipped if absent
       //@looplabel <n> <ghost iterator name>     `for x in e` -> `for x in <name>: e`
       //@before <n> "<tokens>"   lines spliced before the n-th statement starting with these tokens
       //@after  <n> "<tokens>"   ... after that statement
@@ -737,6 +737,8 @@ class FnRewriter:
                     loops = self.loops()
                 n = sec["n"]
                 if n > len(loops):
+                    if sec.get("optional"):
+                        continue
                     raise ExtractError("lost anchor: loop #%d in %s" % (n, self.name))
                 kw, lb = loops[n - 1]
                 self.edit(toks[lb].start, toks[lb].start, text, tag)
@@ -1148,7 +1150,9 @@ class Assembler:
                             cur = dict(kind=c2, lines=[], label=c2)
                             sections.append(cur)
                         elif c2 == "loop":
-                            cur = dict(kind="loop", n=int(p2[1]), lines=[], label="loop%s" % p2[1])
+                            # `//@loop n opt`: the contract of a loop that an equivalent rewrite may have replaced by a library call (fill, ...):
+                            # skipped when the function has fewer loops
+                            cur = dict(kind="loop", n=int(p2[1]), lines=[], label="loop%s" % p2[1], optional=(len(p2) > 2 and p2[2] == "opt"))
                             sections.append(cur)
                         elif c2 == "looplabel":
                             sections.append(dict(kind="looplabel", n=int(p2[1]), name=p2[2], lines=[], label="looplabel%s" % p2[1]))
